@@ -7,7 +7,8 @@ and the Spec (Eql/RuleSpec.v `rdr`, `spec_sx`) by vm_compute; `fragW_sx` says wh
 (C08_rules / C08_rules_next / C08_rules_next2) and whether it is in the unsettled class `later_ref_next`; every other program
 lies in the fragment of C08_rules_next_all (next_rule anywhere, set of instances).
 Decision: impl != spec -> VIOLATION, except in the unsettled class (model only, never an alarm); a class with an OPEN listed
-finding (none at present) counts instances only when impl = model.
+finding (none at present) counts instances only when impl = model.  Half of the programs written in two `with query:` blocks
+are evaluated once between the blocks (C08-j, repaired by /repo 8d7ea4d).
 A second stream of TWO-variable programs (see "two-variable rule programs" below) is compared three ways: implementation,
 two-variable model (Eql/RuleEval2.v) and Spec (Eql/RuleSpec2.v); `frag2_sx` says whether the case lies in the fragment of
 C08_rules2; two-variable programs with next_rule are compared with model and Spec as well.
